@@ -14,6 +14,7 @@ A *case* (plain JSON) describes a network and a space:
     Q     = number                 (bare: expressed in the owner's units system)
           | ["str", v, unit]       (the text "v unit")
           | ["uv",  v, unit]       (UnitValue(v, unit))
+          | ["si",  v, kind]       (exact SI value v of a 'density' / 'volume' / 'amount', read from a live object)
     SPEC  = Q | {env label or "default": Q}
     FSPEC = bool/int | {env label or "default": bool/int}
 
@@ -72,6 +73,10 @@ def q_si(q, us3, kind):
     """Exact SI value of a quantity description; bare numbers are in units system us3."""
     if isinstance(q, (list, tuple)):
         tag, v, unit = q
+        if tag == "si":         # already an exact SI value (read back from a live object), unit = kind
+            if unit != kind:
+                raise ValueError("alphabet error: %r is not a %s" % (q, kind))
+            return F(v)
         sc, dim = text_scale_dim(unit)
         if dim != DIM[kind]:
             raise ValueError("alphabet error: %r is not a %s" % (unit, kind))
